@@ -9,6 +9,7 @@ export PDV_REPLAY_DIR=${PDV_REPLAY_DIR:-/tmp/wt/sweep_replays}
 for p in $PROPS; do
   for s in $SEEDS; do
     out=$(VERIF_SEED=$s ./check $p --tier $TIER --bounded-only 2>&1); rc=$?
+    [ $rc -ne 0 ] && echo "$out" > /tmp/wt/sweep_fail_${p}_${s}.log
     echo "$p seed=$s rc=$rc $(echo "$out" | grep -c '^VIOLATION') $(echo "$out" | grep 'failed obligation' | head -3 | tr '\n' ' ')"
   done
 done
